@@ -181,7 +181,8 @@ def check_case(res, case):
     # ---- WaveSim
     n, init, tt, fin = W.stim_for(nv)
     lanes_small = sorted({1 % n, (n // 2 + 1) % n, n - 1})
-    delays = wsim.delay_array(nlines, W.zero_fork_delays(c, ['d' if i % 2 else 'i' for i in range(nlines)]))
+    d1 = wsim.delay_array(nlines, W.zero_fork_delays(c, ['d' if i % 2 else 'i' for i in range(nlines)]))
+    delays = np.concatenate([d1, d1 * 2, d1 * 4])      # three delay datasets, selected per simulation (lane k uses dataset (k+1) mod 3)
     actrl = np.zeros((nlines + 3, 3), dtype=np.int32); actrl[:, 0] = -1
     for l in range(nlines): actrl[l] = (l % 2, 1, 2)
     sel = np.array(lanes_small)
@@ -189,6 +190,8 @@ def check_case(res, case):
 
     def fresh(cuda):
         s = W.make_sim(c, delays, ns, caps=4, reuse=reuse, strip=strip, cuda=cuda, a_ctrl=actrl)
+        s.simctl_int[1] = 1
+        s.simctl_int[0, :ns] = (np.arange(ns) + 1) % 3
         for kk, pos in enumerate(ipos + spos):
             s.s[0, pos, :ns] = init[kk][sel]; s.s[1, pos, :ns] = tt[kk][sel]; s.s[2, pos, :ns] = fin[kk][sel]
         return s
@@ -216,6 +219,16 @@ def check_case(res, case):
             if not np.array_equal(cc[keepw], images[-1][0][keepw]) or not np.array_equal(ab, images[-1][1]):
                 res.violation(f'{key}/wave-cpu/level{li}', case, f'WaveSim: executing level {li} in order {p} changes memory or accumulated activity {nl}')
                 break
+        # (ii') the threads of a level launched as blocks of simulations, upper block first (a launch need not start at simulation 0)
+        if ns >= 2:
+            h = ns // 2
+            cc, ab = cprev.copy(), aprev.copy()
+            wave_sim.level_eval_cpu(ws.ops, a, bnd, cc, ws.c_locs, ws.c_caps, ab, h, ns, ws.delays, ws.simctl_int, 0)
+            wave_sim.level_eval_cpu(ws.ops, a, bnd, cc, ws.c_locs, ws.c_caps, ab, 0, h, ws.delays, ws.simctl_int, 0)
+            res.transitions += 1; res.validated += 1; res.evals += 1
+            if not np.array_equal(cc[keepw], images[-1][0][keepw]) or not np.array_equal(ab, images[-1][1]):
+                res.violation(f'{key}/wave-cpu-blocks/level{li}', case, f'WaveSim: level {li} executed as simulation blocks [{h},{ns}) then [0,{h}) differs from one launch {nl}')
+            res.count('sim_block_launches')
         # (iv) access logging per (op, lane) thread
         acc = []
         for oi in range(a, bnd):
@@ -293,6 +306,17 @@ def check_case(res, case):
             if not np.array_equal(cc[keepw], images[li][0][keepw]) or not np.array_equal(ab, images[li][1]):
                 res.violation(f'{key}/gpu-order/level{li}', case, f'GPU kernel: thread order {list(order)[:8]}.. of level {li} gives different memory/activity than the CPU level function {nl}')
                 break
+        if ns >= 2:      # the GPU kernel launched for simulation blocks [h, ns) and [0, h): thread x of a launch is simulation sim_start + x
+            h = ns // 2
+            cc, ab = cprev.copy(), aprev.copy()
+            for s0, s1 in ((h, ns), (0, h)):
+                for y in range(bnd - a):
+                    for x in range(s1 - s0):
+                        kyupy.cuda.x, kyupy.cuda.y = x, y
+                        kernel(gs.ops, a, bnd, cc, gs.c_locs, gs.c_caps, ab, s0, s1, gs.delays, gs.simctl_int, 0)
+            res.transitions += 1; res.validated += 1; res.evals += 1
+            if not np.array_equal(cc[keepw], images[li][0][keepw]) or not np.array_equal(ab, images[li][1]):
+                res.violation(f'{key}/gpu-blocks/level{li}', case, f'GPU kernel: level {li} launched for simulation blocks [{h},{ns}) and [0,{h}) differs from the CPU level function {nl}')
         res.count('gpu_launches')
     # capture kernel: thread orders of the GPU capture launch vs the CPU capture of the same memory
     if images:
@@ -320,7 +344,7 @@ def check_case(res, case):
 
 
 def finish(agg, tier):
-    need = ['levels_with_2plus_ops', 'threads_logged', 'gpu_launches', 'cases_with_reuse', 'partition_checks']
+    need = ['sim_block_launches', 'levels_with_2plus_ops', 'threads_logged', 'gpu_launches', 'cases_with_reuse', 'partition_checks']
     missing = [k for k in need if not agg.counters.get(k)]
     if missing: raise common.HarnessError(f'vacuity guard: {missing} zero')
     return {}
